@@ -41,6 +41,8 @@
 -/
 import PsutilModel.Proofs.C02
 import PsutilModel.Proofs.C01Hid
+import PsutilModel.Proofs.C02Fault
+import PsutilModel.Spec.C02Fault
 import PsutilModel.Model.C02Gen
 namespace Psutil.C02
 open Psutil.C01 Psutil.C01.Spec
@@ -635,6 +637,217 @@ theorem C02_unknown_start_counterexample :
     revert this; decide
   · intro H
     have := H 1000 (by decide) witnessUnknownThenKnown hok 0 _ h0
+    revert this; decide
+
+/-! ## Transient failures of the read of `/proc/pid/stat` (seeded round 5; Model/C02Fault.lean, Spec/C02Fault.lean)
+
+  Histories `List FEv`: everything above, plus `fault pid on/off` events — from `on` to `off` every attempt to get the
+  content of `/proc/pid/stat` fails with an OSError that is neither ENOENT/ESRCH nor EACCES/EPERM (EMFILE, ENFILE,
+  ENOMEM, EIO, …: the caller ran out of file descriptors, the kernel out of memory, …).  ANY PID, at ANY point, for any
+  duration, several at once (`FHistOK` restricts the kernel events exactly as `HistOK` does and the faults not at all). -/
+open Psutil.C02.Spec
+
+set_option maxRecDepth 20000 in
+/-- **cfg_stat_fault_propagates** (obligation on the path from the read to the caller of `is_running()`):
+    `_parse_stat_file` gets the content with a bare `bcat(path)` (fact `statReadShape`), `cat`/`bcat` guard the
+    read only when a `fallback` is given (`catShape`), `wrap_exceptions` translates PermissionError /
+    ProcessLookupError / FileNotFoundError only (`wrapHandlers`), `is_running()` turns only NoSuchProcess into
+    `_gone` (`isRunningHandlers`), `_init` catches AccessDenied / ZombieProcess / NoSuchProcess only (`initHandlers`)
+    — so the configuration the driver runs and the theorems below speak about is `StatFault.propagates`.  Stops
+    building as soon as one of the stages swallows more (a `fallback=`, a detour through a helper, a broader
+    `except`): what that does to C02 is `C02_fault_swallowed_counterexample`. -/
+theorem cfg_stat_fault_propagates :
+    statReadBare = true ∧ catBare = true ∧ wrapNarrow = true ∧ isRunningNarrow = true ∧ initNarrow = true
+    ∧ statFault = .propagates := by decide
+
+/-- (helper) the hypothesis on histories with failing reads, indexed as the lemmas of Proofs/C02Fault.lean want it -/
+theorem fhist_ok {h : List FEv} (hh : FHistOK true h) : FHistOK cfg.createNoneTest h := by
+  rw [cfg_none_test]; exact hh
+
+/-- (helper) the invariant of the identity machine holds after any history with failing reads -/
+theorem frun_inv (b0 : Nat) (h : List FEv) (hh : FHistOK true h) :
+    Inv cfg.createNoneTest cfg.clk (runF cfg .propagates (FSt.init b0) h).st :=
+  runF_inv cfg_good h (FSt.init b0) (fhist_ok hh) (init_inv cfg.clk (BtOK.of_none_test cfg_none_test b0))
+
+/-- **is_running() while reads fail, exactly.**  After ANY history with failing reads, for any object: the call
+    leaves with the OS error exactly when it has to read a stat file that fails right now (no sticky flag answers
+    and the object's own PID is faulty); in every other case — the fault is on another PID, is over, or was never
+    there — it answers whether the object's own incarnation is still in the process table. -/
+theorem C02_fault_isRunning_exact (b0 : Nat) (h : List FEv) (hh : FHistOK true h) (i : Nat) (o : PObj)
+    (ho : (runF cfg statFault (FSt.init b0) h).st.ps.objs[i]? = some o) :
+    (stepF cfg statFault (runF cfg statFault (FSt.init b0) h).st (runF cfg statFault (FSt.init b0) h).faulty
+        (.isRunning i)).2
+      = if !flagged o && (runF cfg statFault (FSt.init b0) h).faulty.contains o.pid then .osError
+        else .ok (.bool (listedB (runF cfg statFault (FSt.init b0) h).st.kern o)) := by
+  rw [cfg_stat_fault_propagates.2.2.2.2.2] at ho ⊢
+  exact stepF_isRunning cfg_good (frun_inv b0 h hh) _ ho
+
+/-- **The clause seeded C02-5 breaks.**  After any history with failing reads `is_running()` tells the truth about
+    the object's own incarnation, or — only while reads of the object's own PID fail — leaves with the OS error:
+    never False for a process that is still in the table, never True for one that is not. -/
+theorem C02_fault_isRunning_right_or_withheld (b0 : Nat) (h : List FEv) (hh : FHistOK true h) (i : Nat) (o : PObj)
+    (ho : (runF cfg statFault (FSt.init b0) h).st.ps.objs[i]? = some o) :
+    RightOrWithheld (runF cfg statFault (FSt.init b0) h).faulty (runF cfg statFault (FSt.init b0) h).st.kern o
+      (stepF cfg statFault (runF cfg statFault (FSt.init b0) h).st (runF cfg statFault (FSt.init b0) h).faulty
+        (.isRunning i)).2 := by
+  rw [C02_fault_isRunning_exact b0 h hh i o ho]
+  unfold RightOrWithheld
+  split
+  · rename_i hc
+    simp only [Bool.and_eq_true, List.contains_iff_mem] at hc
+    exact Or.inr ⟨rfl, by simpa using hc.2⟩
+  · exact Or.inl rfl
+
+/-- **Nothing sticks.**  Once no read fails any more (`faulty = []` at the end of the history — whatever failed
+    before, whichever calls were made meanwhile), `is_running()` answers exactly as in a world without faults:
+    True iff the object's own incarnation is in the table. -/
+theorem C02_fault_no_trace (b0 : Nat) (h : List FEv) (hh : FHistOK true h)
+    (hclear : (runF cfg statFault (FSt.init b0) h).faulty = []) (i : Nat) (o : PObj)
+    (ho : (runF cfg statFault (FSt.init b0) h).st.ps.objs[i]? = some o) :
+    (stepF cfg statFault (runF cfg statFault (FSt.init b0) h).st (runF cfg statFault (FSt.init b0) h).faulty
+        (.isRunning i)).2 = .ok (.bool (listedB (runF cfg statFault (FSt.init b0) h).st.kern o)) := by
+  rw [C02_fault_isRunning_exact b0 h hh i o ho, hclear]
+  simp
+
+/-- `==` and `hash()` read nothing: after any history with failing reads, and while reads fail, two objects are equal
+    exactly when they have the same PID and were built for the same process start, and equal objects hash alike -/
+theorem C02_fault_eq_hash (b0 : Nat) (h : List FEv) (hh : FHistOK true h) (i j : Nat) (a b : PObj)
+    (ha : (runF cfg statFault (FSt.init b0) h).st.ps.objs[i]? = some a)
+    (hb : (runF cfg statFault (FSt.init b0) h).st.ps.objs[j]? = some b) :
+    (stepF cfg statFault (runF cfg statFault (FSt.init b0) h).st (runF cfg statFault (FSt.init b0) h).faulty
+        (.eq i j)).2 = .ok (.bool (decide (SameIncarnation a b)))
+    ∧ (SameIncarnation a b →
+        (stepF cfg statFault (runF cfg statFault (FSt.init b0) h).st (runF cfg statFault (FSt.init b0) h).faulty
+          (.hash i)).2
+        = (stepF cfg statFault (runF cfg statFault (FSt.init b0) h).st (runF cfg statFault (FSt.init b0) h).faulty
+          (.hash j)).2) := by
+  rw [cfg_stat_fault_propagates.2.2.2.2.2] at ha hb ⊢
+  have hinv := frun_inv b0 h hh
+  generalize (runF cfg .propagates (FSt.init b0) h).st = s at *
+  generalize (runF cfg .propagates (FSt.init b0) h).faulty = F at *
+  obtain ⟨B, hoa, hob⟩ := shared_boot hinv ha hb
+  rw [stepF_eq_out, stepF_hash_out, stepF_hash_out, step_eq_out cfg s ha hb, step_hash_out cfg s ha,
+    step_hash_out cfg s hb]
+  refine ⟨?_, fun hsame => by rw [hoa.ident_eq, hob.ident_eq, hsame.1, hsame.2]⟩
+  show OutF.ok (Out.bool (a.pid == b.pid && a.ident == b.ident)) = OutF.ok (Out.bool (decide (SameIncarnation a b)))
+  congr 2
+  rw [hoa.ident_eq, hob.ident_eq, Bool.eq_iff_iff, decide_eq_true_iff]
+  simp [SameIncarnation]
+
+/-- along any continuation with failing reads an object keeps its PID, the process it was built for and its
+    `_ident`; sticky flags are only ever set -/
+theorem C02_fault_object_constant (b0 : Nat) (h : List FEv) (hh : FHistOK true h) (i : Nat) (o : PObj)
+    (ho : (runF cfg statFault (FSt.init b0) h).st.ps.objs[i]? = some o) (h2 : List FEv) (hh2 : FHistOK true h2) :
+    ∃ o', (runF cfg statFault (runF cfg statFault (FSt.init b0) h) h2).st.ps.objs[i]? = some o' ∧ Evolves o o' := by
+  rw [cfg_stat_fault_propagates.2.2.2.2.2] at ho ⊢
+  exact runF_ext cfg_good h2 _ (fhist_ok hh2) (frun_inv b0 h hh) i o ho
+
+/-- **"False ever after", with failing reads.**  Once the object's incarnation has left the table, `is_running()` is
+    never True again after any continuation — failing reads, recycled PID, anything: it answers False or (while reads
+    of its PID fail and no sticky flag is set yet) leaves with the OS error. -/
+theorem C02_fault_never_true_after_gone (b0 : Nat) (h : List FEv) (hh : FHistOK true h) (i : Nat) (o : PObj)
+    (ho : (runF cfg statFault (FSt.init b0) h).st.ps.objs[i]? = some o)
+    (hgone : ¬ Listed (runF cfg statFault (FSt.init b0) h).st.kern o) (h2 : List FEv) (hh2 : FHistOK true h2) :
+    (stepF cfg statFault (runF cfg statFault (runF cfg statFault (FSt.init b0) h) h2).st
+        (runF cfg statFault (runF cfg statFault (FSt.init b0) h) h2).faulty (.isRunning i)).2 ≠ .ok (.bool true) := by
+  rw [cfg_stat_fault_propagates.2.2.2.2.2] at ho hgone ⊢
+  have hinv := frun_inv b0 h hh
+  generalize runF cfg .propagates (FSt.init b0) h = fs at *
+  have hinv2 := runF_inv cfg_good h2 fs (fhist_ok hh2) hinv
+  obtain ⟨o', ho', hevo⟩ := runF_ext cfg_good h2 fs (fhist_ok hh2) hinv i o ho
+  obtain ⟨B, hB, hok⟩ := hinv.ps.objs o (List.mem_of_getElem? ho)
+  have hdead : fs.st.kern.owner o.pid ≠ some o.ghost := fun e => hgone ((listed_iff_owner hinv.kern o).2 e)
+  have hdead2 := runF_dead (c := cfg) .propagates o.pid o.ghost h2 fs hok.ghost_lt hdead
+  rw [stepF_isRunning cfg_good hinv2 _ ho']
+  split
+  · intro hc; cases hc
+  · intro hc
+    injection hc with hc; injection hc with hc
+    have hl := (listed_iff_owner hinv2.kern o').1 ((listedB_iff _ _).1 hc)
+    rw [hevo.pid, hevo.ghost] at hl
+    exact hdead2 hl
+
+/-- ANY state, any fault set: a call (other than the sweep) that leaves with the transient OS error has stored
+    nothing — module state, objects, cache, effect log and kernel are what they were -/
+theorem C02_fault_oserror_stores_nothing (s : St) (F : List Nat) (call : Call) (hne : call ≠ .processIter)
+    (hout : (stepF cfg statFault s F call).2 = .osError) : (stepF cfg statFault s F call).1 = s := by
+  rw [cfg_stat_fault_propagates.2.2.2.2.2] at hout ⊢
+  rcases stepF_cases cfg s F call hne with e | e
+  · rw [e]
+  · rw [e] at hout; cases hout
+
+/-- ANY state, any fault set: a sweep — complete or cut short by a failing read — leaves the kernel and every existing
+    object exactly as it was (objects are only appended), and every cache entry afterwards was cached before or is a
+    fresh object built for the current owner of its PID, without sticky flags -/
+theorem C02_fault_sweep_keeps_objects (s : St) (F : List Nat) :
+    (stepF cfg statFault s F .processIter).1.kern = s.kern
+    ∧ (∀ (j : Nat) (o : PObj), s.ps.objs[j]? = some o → (stepF cfg statFault s F .processIter).1.ps.objs[j]? = some o)
+    ∧ (∀ e ∈ (stepF cfg statFault s F .processIter).1.ps.pmap,
+        e ∈ s.ps.pmap ∨ FreshHandle s.kern s.ps.objs.length (stepF cfg statFault s F .processIter).1.ps.objs e) := by
+  rw [cfg_stat_fault_propagates.2.2.2.2.2]
+  obtain ⟨⟨t, ht⟩, hy⟩ := sweepF_shape cfg s.kern s.ps F
+  refine ⟨rfl, fun j o ho => ?_, hy⟩
+  rw [stepF_sweep]
+  simp only [ht]
+  exact getElem?_append_of_some ho t
+
+/-- the full statements, for any configuration and any way the failure surfaces -/
+def IsRunningRightOrWithheld_Full (c : Cfg) (sf : StatFault) : Prop :=
+  ∀ (b0 : Nat), BtOK c.createNoneTest b0 → ∀ (h : List FEv), FHistOK c.createNoneTest h → ∀ (i : Nat) (o : PObj),
+    (runF c sf (FSt.init b0) h).st.ps.objs[i]? = some o →
+    RightOrWithheld (runF c sf (FSt.init b0) h).faulty (runF c sf (FSt.init b0) h).st.kern o
+      (stepF c sf (runF c sf (FSt.init b0) h).st (runF c sf (FSt.init b0) h).faulty (.isRunning i)).2
+
+def NoTrace_Full (c : Cfg) (sf : StatFault) : Prop :=
+  ∀ (b0 : Nat), BtOK c.createNoneTest b0 → ∀ (h : List FEv), FHistOK c.createNoneTest h →
+    (runF c sf (FSt.init b0) h).faulty = [] → ∀ (i : Nat) (o : PObj),
+    (runF c sf (FSt.init b0) h).st.ps.objs[i]? = some o →
+    (stepF c sf (runF c sf (FSt.init b0) h).st [] (.isRunning i)).2
+      = .ok (.bool (listedB (runF c sf (FSt.init b0) h).st.kern o))
+
+/-- both hold for the source as extracted -/
+theorem C02_fault_full_statements : IsRunningRightOrWithheld_Full cfg statFault ∧ NoTrace_Full cfg statFault :=
+  ⟨fun b0 _ h hh i o ho => C02_fault_isRunning_right_or_withheld b0 h (cfg_none_test ▸ hh) i o ho,
+   fun b0 _ h hh hclear i o ho => by
+     have := C02_fault_no_trace b0 h (cfg_none_test ▸ hh) hclear i o ho
+     rw [hclear] at this; exact this⟩
+
+/-- live process 8, one handle, reads of `/proc/8/stat` start failing -/
+def witnessFaultOn : List FEv := [.ev (.k (.spawn 8)), .ev (.c (.newObj 8)), .fault 8 true]
+
+/-- … `is_running()` is asked during the shortage, then the shortage is over -/
+def witnessFaultAsked : List FEv := witnessFaultOn ++ [.ev (.c (.isRunning 0)), .fault 8 false]
+
+example : FHistOK true witnessFaultOn ∧ FHistOK true witnessFaultAsked := by decide
+
+set_option maxRecDepth 20000 in
+/-- non-vacuity, the extracted configuration: during the shortage the answer is withheld, afterwards it is True
+    again, and a fresh handle is equal to the old one -/
+example :
+    (stepF cfg statFault (runF cfg statFault (FSt.init 1000) witnessFaultOn).st
+      (runF cfg statFault (FSt.init 1000) witnessFaultOn).faulty (.isRunning 0)).2 = .osError
+    ∧ (stepF cfg statFault (runF cfg statFault (FSt.init 1000) witnessFaultAsked).st
+        (runF cfg statFault (FSt.init 1000) witnessFaultAsked).faulty (.isRunning 0)).2 = .ok (.bool true)
+    ∧ (runF cfg statFault (FSt.init 1000) (witnessFaultAsked ++ [.ev (.c (.newObj 8)), .ev (.c (.eq 0 1))])).st.ps.objs.length = 2 := by
+  decide
+
+/-- **What swallowing the failure does (what-if: `StatFault.asGone`, e.g. `bcat(path, fallback=b"")` + "empty ⇒
+    NoSuchProcess", or `except OSError` around the read — seeded C02-5).**  Both full statements are false: during
+    the shortage `is_running()` of the handle of LIVE process 8 answers False (`witnessFaultOn`), and the `_gone`
+    flag set then keeps it False after the shortage is over (`witnessFaultAsked`), while the process is in the
+    table all along. -/
+theorem C02_fault_swallowed_counterexample :
+    ¬ IsRunningRightOrWithheld_Full cfg .asGone ∧ ¬ NoTrace_Full cfg .asGone := by
+  have h0 : (runF cfg .asGone (FSt.init 1000) witnessFaultOn).st.ps.objs[0]?
+      = some ⟨8, some (0 + cfg.clk * 1000), some (0 + cfg.clk * 1000), false, false, 0⟩ := by decide
+  have h1 : (runF cfg .asGone (FSt.init 1000) witnessFaultAsked).st.ps.objs[0]?
+      = some ⟨8, some (0 + cfg.clk * 1000), some (0 + cfg.clk * 1000), true, false, 0⟩ := by decide
+  constructor
+  · intro H
+    have := H 1000 (by decide) witnessFaultOn (by decide) 0 _ h0
+    revert this; unfold RightOrWithheld; decide
+  · intro H
+    have := H 1000 (by decide) witnessFaultAsked (by decide) (by decide) 0 _ h1
     revert this; decide
 
 end Psutil.C02
